@@ -243,3 +243,52 @@ def directed_pointers(data, u):
             b[base + 8:base + 12] = struct.pack(">I", tv)
             out.append((bytes(b), "page %d all pointers -> %s" % (n, tn)))
     return out
+
+
+def directed_lengths(data, u):
+    """deterministic corruptions of the payload-length varint of cells that spill into overflow pages: the declared
+    length becomes far larger than what the chain holds (2^31 .. 2^63-1, and the unsigned 2^64-1), the cell is
+    rewritten so that it still spills and still points at its first overflow page.  [(bytes, description)]"""
+    out = []
+    for n in all_btree_pages(data, u):
+        t, nc, rm, cells = sqlfmt.page_info(data, n, u)
+        if t not in (13, 10, 2):
+            continue
+        index = t != 13
+        base = (n - 1) * u
+        x = ((u - 12) * 64 // 255) - 23 if index else u - 35
+        done = 0
+        for c in cells:
+            pos = c + (4 if t == 2 else 0)
+            v = sqlfmt.get_varint(data[base + pos:base + pos + 9])
+            if v is None:
+                continue
+            p, lp = v
+            if p <= x:
+                continue
+            hdr_rest = b""
+            if t == 13:
+                r = sqlfmt.get_varint(data[base + pos + lp:base + pos + lp + 9])
+                if r is None:
+                    continue
+                hdr_rest = data[base + pos + lp:base + pos + lp + r[1]]
+            old_local = sqlfmt.local_size(p, u, index)
+            ovf_at = pos + lp + len(hdr_rest) + old_local
+            if ovf_at + 4 > u:
+                continue
+            first_ovf = data[base + ovf_at:base + ovf_at + 4]
+            local_bytes = data[base + pos + lp + len(hdr_rest):base + ovf_at]
+            for np_ in (2 ** 31 + 7, 2 ** 40 + 1, 2 ** 62, 2 ** 63 - 1, 2 ** 64 - 1):
+                nl = sqlfmt.local_size(np_ if np_ < 2 ** 63 else np_, u, index)
+                cell = sqlfmt.put_varint(np_) + hdr_rest
+                body = (local_bytes * (nl // max(1, len(local_bytes)) + 1))[:nl]
+                cell += body + first_ovf
+                if pos + len(cell) > u:
+                    continue
+                b = bytearray(data)
+                b[base + pos:base + pos + len(cell)] = cell
+                out.append((bytes(b), "page %d (type %d) cell at %d: payload length %d -> %d, still spilling to page %d" % (n, t, c, p, np_, struct.unpack(">I", first_ovf)[0])))
+            done += 1
+            if done >= 2:
+                break
+    return out
